@@ -348,6 +348,8 @@ func parseEmbed(t *Tree, start Pos) (Node, error) {
 		tok := t.nextNonSpace()
 		if tok.tokenType == tokenEOF {
 			return nil, newUnclosedTagError("embed", start)
+		} else if tok.tokenType == tokenError {
+			return nil, newUnexpectedTokenError(tok)
 		} else if tok.tokenType == tokenTagOpen {
 			tok, err := t.expect(tokenName)
 			if err != nil {
@@ -700,6 +702,8 @@ func parseVerbatim(t *Tree, start Pos) (Node, error) {
 		switch tok := t.peek(); tok.tokenType {
 		case tokenEOF:
 			return nil, newUnexpectedEOFError(tok)
+		case tokenError:
+			return nil, newUnexpectedTokenError(tok)
 		case tokenTagOpen:
 			tok := t.next()
 			tok, err := t.expect(tokenName)
